@@ -46,11 +46,27 @@ def array_len(ty):
     return int(m.group(1)) if m else None
 
 
+def buf_len(snap):
+    """length of the byte buffer an event argument refers to (`&mut [b'0'; N]`), from its snapshot"""
+    n = 0
+    while isinstance(snap, tuple) and snap and snap[0] == "ref" and n < 4:
+        snap = snap[3] if len(snap) > 3 else None
+        n += 1
+    if isinstance(snap, tuple) and snap and snap[0] == "agg" and snap[1] == "array":
+        return len(snap[2])
+    if isinstance(snap, tuple) and snap and snap[0] == "bytes":
+        return len(snap[1])
+    return None
+
+
 def run(R, tier):
     R.configs.append("dflt")
     P = D.prog()
     u = P.unit("scpi")
-    eng = fdai.Engine(P, u, inline=lambda n, r: False, models={}, loop_limit=3)
+    # private helpers of the response module (say, one generic function shared by the macro-generated writers) are
+    # analysed in place, with their generic parameters bound from the call
+    _resp_helpers = D.inline_inherent(("scpi::parser::response::", "scpi::parser::format::"))
+    eng = fdai.Engine(P, u, inline=lambda n, r: _resp_helpers(n, r), models={}, loop_limit=3)
 
     # ---- R09.1 integer writers ---------------------------------------------------------------------
     n_int = 0
@@ -70,7 +86,8 @@ def run(R, tier):
             ok = w is not None and w.name == "lexical_core::write" and tuple(g[:1]) == (ity,) and w.args[0] == ("sym", "value", "value")
             ok = ok and len(ws) == 1 and ws[0][0] == "push_str" and CB.ret_of(ws[0][1], "write") and p.outcome == "ret:push_str"
             good = good and ok
-        bufs = [array_len(l["ty"]) for l in b.mir.locals if array_len(l["ty"])]
+        bufs = [buf_len(p.call("write").args[1]) for p in ps if p.call("write") is not None and len(p.call("write").args) > 1]
+        bufs = [x for x in bufs if x is not None]
         R.check(good and bufs and min(bufs) >= nd, "R09.1", "%s:decimal" % ity, "lexical_core::write::<%s>(*self) into a %s-byte stack buffer (>= %d); the returned slice is pushed" % (ity, bufs, nd), "decimal writer of %s: must format *self with write::<%s> into a buffer of at least %d bytes and push the slice the writer returns (buffers %s): %s" % (ity, ity, nd, bufs, [p.describe() for p in ps]), where=b.span)
         for wname, (radix, prefix) in WRAP.items():
             bs2 = fmt_impls(u, lambda s, ity=ity, wname=wname: s.endswith("format::%s<%s>" % (wname, ity)))
@@ -91,7 +108,8 @@ def run(R, tier):
                 ok = w is not None and tuple(g[:1]) == (ity,) and rad == radix and w.args[0] == ("sym", "value", "value")
                 ok = ok and [x[0] for x in ws] == ["push_str", "push_str"] and C_bytes(ws[0][1]) == prefix and CB.ret_of(ws[1][1], "write_with_options")
                 good = good and ok
-            bufs = [array_len(l["ty"]) for l in b2.mir.locals if array_len(l["ty"])]
+            bufs = [buf_len(p.call("write_with_options").args[1]) for p in ps if complete(p) and p.call("write_with_options") is not None and len(p.call("write_with_options").args) > 1]
+            bufs = [x for x in bufs if x is not None]
             need = C_bits(ity) + (1 if ity.startswith("i") else 0)
             R.check(good and bufs and min(bufs) >= need, "R09.1", "%s:%s" % (ity, wname), "prefix %r then write_with_options::<%s, radix %d>(self.0); buffer %s >= %d" % (prefix.decode(), ity, radix, bufs, need), "%s<%s> writer: prefix %r, radix %d, value self.0, returned slice pushed, buffer >= %d bytes required: %s buffers %s" % (wname, ity, prefix.decode(), radix, need, [p.describe() for p in ps], bufs), where=b2.span)
     R.floor("R09.1", "integer writers", n_int, 40)
